@@ -2,17 +2,17 @@
 from props._common import *  # noqa
 
 ID = 'C19'
-LEVEL = 'other'
-MANIFEST_LEVEL = 'other'
+LEVEL = 'proof'
 FUNCTIONS = [N + f for f in ('is_special_string', 'is_content_string', 'is_navigable_string', 'is_cdata', 'is_declaration', 'is_processing_instruction', 'get_contents')] + HUB
 BOUNDED = [hub_bounded('C19-text-hub', ['text', 'iframe', 'basic', 'multiroot', 'small', 'plain'], ['text'])]
-TRUSTED = [A_PY, A_BS4, 'get_descendants (iframe skipping), get_text/get_own_text, match_contains, match_empty and parse_pseudo_contains are not yet under discharged contracts: bounded']
+TRUSTED = [A_PY, A_BS4, A_SMT, 'get_children, get_descendants (iframe skipping) and get_text/get_own_text are under assumed contracts (text_of / own_texts): bounded', 'parse_pseudo_contains (value-list decoding) is bounded']
 ASSUMPTIONS = TRUSTED
 EXPLANATION = ('Proved: node-kind classification (content string = NavigableString that is not comment/CDATA/PI/declaration/doctype), get_contents with the iframe cut, the hub. '
-               'Bounded: :-soup-contains / -own / :empty against the text-content reference on trees interleaving text, comments, CDATA, PIs and iframes.')
+               'match_contains is proved: every list needs some text inside the joined descendant text / inside ONE own text node, the two kinds computed separately and reused; match_empty is proved. '
+               'Bounded: the text extraction itself (which nodes count, iframe cut) against the reference on trees interleaving text, comments, CDATA, PIs and iframes; value-list decoding.')
 LEVEL_TEXT = EXPLANATION
-TECHNIQUE = 'VC-proved classification contracts + bounded evaluation of the text-content contracts'
-MUSTFAIL = False
+TECHNIQUE = 'contract-based deductive verification (VCs from the real AST, z3/cvc5) + bounded evaluation of the text-extraction contracts'
+MUSTFAIL_PER_FN = {'quick': 1, 'thorough': 6}
 
 
 def _bt_value_lists(ctx):
@@ -21,3 +21,7 @@ def _bt_value_lists(ctx):
 
 
 BOUNDED = BOUNDED + [_bt_value_lists]
+
+FUNCTIONS = FUNCTIONS + [q for q in STRUCT if q not in FUNCTIONS]
+
+FUNCTIONS = FUNCTIONS + [M + 'match_contains']
